@@ -51,6 +51,131 @@ def from_name(sel) -> str | None:
     return f.this.name
 
 
+ROW_CLAUSES = ["where", "limit", "offset", "distinct", "joins", "group", "having", "qualify", "order", "windows", "sample",
+               "cluster", "distribute", "sort", "laterals", "pivots", "match", "connect", "prewhere", "locks", "into", "kind"]
+
+
+def require_plain(sel, name: str, allow=()):
+    """a stage may only contain the clauses the model knows about: anything that can drop, duplicate or
+    reorder-and-cut rows (WHERE / LIMIT / DISTINCT / JOIN / GROUP BY / HAVING / QUALIFY / ORDER BY ...) is refused"""
+    if not isinstance(sel, E.Select):
+        raise Untranslatable(f"{name}: not a plain SELECT ({type(sel).__name__})")
+    for k in ROW_CLAUSES:
+        if k in allow:
+            continue
+        if sel.args.get(k):
+            raise Untranslatable(f"{name}: unexpected {k.upper()} clause")
+    w = sel.args.get("with_") or sel.args.get("with")
+    if w is not None and "with" not in allow:
+        raise Untranslatable(f"{name}: nested WITH")
+
+
+def _cols_of(expr):
+    return list(expr.find_all(E.Column))
+
+
+def bindings_of(src, name: str):
+    """the stage that feeds the comparison vectors: which side and source column every <col>_l / <col>_r
+    (incl. tf_<col>_l/_r) input is bound to, the two source tables and the join shape"""
+    require_plain(src, name, allow=("joins",))
+    f = src.args.get("from_") or src.args.get("from")
+    if f is None or not isinstance(f.this, E.Table) or f.this.alias != "l":
+        raise Untranslatable(f"{name}: FROM is not <table> AS l")
+    tables = {"l": f.this.name}
+    joins = src.args.get("joins") or []
+    kinds = []
+    pair_alias = None
+    for j in joins:
+        if not isinstance(j.this, E.Table):
+            raise Untranslatable(f"{name}: join source {j.this.sql()[:60]}")
+        kind = " ".join(x for x in [(j.side or "").upper(), (j.kind or "").upper()] if x) or "INNER"
+        kinds.append((kind, j.this.alias, j))
+    if len(kinds) == 1 and kinds[0][0] == "CROSS" and kinds[0][1] == "r" and kinds[0][2].args.get("on") is None:
+        tables["r"] = kinds[0][2].this.name
+        shape = "cross"
+    elif len(kinds) == 2 and all(k[0] == "INNER" for k in kinds) and kinds[1][1] == "r":
+        pair_alias = kinds[0][1]
+        tables["r"] = kinds[1][2].this.name
+        if kinds[0][2].this.name != "__splink__blocked_id_pairs":
+            raise Untranslatable(f"{name}: pairs joined from {kinds[0][2].this.name}")
+        keys = []
+        for (kind, alias, j), side in zip(kinds, "lr"):
+            on = j.args.get("on")
+            if not (isinstance(on, E.EQ) and isinstance(on.expression, E.Column) and on.expression.table == pair_alias
+                    and on.expression.name == f"join_key_{side}"):
+                raise Untranslatable(f"{name}: join condition {on.sql()[:80] if on is not None else None}")
+            cols = _cols_of(on.this)
+            if not cols or any(c.table != side for c in cols):
+                raise Untranslatable(f"{name}: key of side {side} mentions another table: {on.this.sql()[:80]}")
+            keys.append(on.this.sql(dialect="duckdb"))
+        import re as _re
+        if _re.sub(r"\bl\.", "r.", keys[0]) != keys[1]:
+            raise Untranslatable(f"{name}: the two join keys differ: {keys}")
+        shape = "id_pairs"
+    else:
+        raise Untranslatable(f"{name}: join shape {[k[:2] for k in kinds]}")
+    binds = []
+    for it in src.expressions:
+        if isinstance(it, E.Alias) and isinstance(it.this, E.Column) and it.this.table in ("l", "r"):
+            binds.append((it.alias, it.this.table, it.this.name))
+        elif isinstance(it, E.Alias) and it.alias == "match_key" and isinstance(it.this, E.Literal):
+            continue
+        elif isinstance(it, E.Column) and it.name == "match_key" and it.table == pair_alias:
+            continue
+        else:
+            raise Untranslatable(f"{name}: select item {it.sql()[:60]}")
+    return binds, tables, shape
+
+
+def trace_source(st: dict, start: str, settings_obj, dialect: str, depth=0):
+    """follow a side's source table back to a physical table, accepting only the stage shapes the model knows:
+    pass-through SELECT *, uid/source_dataset fix-up (SELECT * , literal AS col), the TF join of ad-hoc records,
+    and the cluster-id join of missing-edge scoring"""
+    name = start
+    for _ in range(8):
+        sel = st.get(name)
+        if sel is None:
+            return
+        items = list(sel.expressions)
+        star_first = bool(items) and isinstance(items[0], E.Star)
+        if star_first and all(isinstance(i, E.Alias) and isinstance(i.this, E.Literal) for i in items[1:]):
+            require_plain(sel, name)
+            nxt = from_name(sel)
+            if nxt is None:
+                raise Untranslatable(f"{name}: FROM is not a table")
+            name = nxt
+            continue
+        if items and isinstance(items[0], E.Column) and isinstance(items[0].this, E.Star) and items[0].table == from_name(sel) \
+                and name != "__splink__df_clusters_renamed":
+            require_plain(sel, name, allow=("joins",))
+            routes_of_select(sel, from_name(sel), settings_obj)          # validates join keys / sources, fail-closed
+            name = from_name(sel)
+            continue
+        if name == "__splink__df_clusters_renamed":
+            require_plain(sel, name, allow=("joins",))
+            joins = sel.args.get("joins") or []
+            f = sel.args.get("from_") or sel.args.get("from")
+            if len(joins) != 1 or (joins[0].side or "").upper() != "LEFT" or joins[0].this.name != "__splink__df_concat_with_tf":
+                raise Untranslatable(f"{name}: join shape")
+            ca, ta = f.this.alias_or_name, joins[0].this.alias_or_name
+            conj = list(joins[0].args["on"].flatten()) if isinstance(joins[0].args.get("on"), E.And) else [joins[0].args.get("on")]
+            keys = set()
+            for c in conj:
+                if not (isinstance(c, E.EQ) and isinstance(c.this, E.Column) and isinstance(c.expression, E.Column)
+                        and {c.this.table, c.expression.table} == {ca, ta} and c.this.name == c.expression.name):
+                    raise Untranslatable(f"{name}: join condition {c.sql()[:80] if c is not None else None}")
+                keys.add(c.this.name)
+            want = {c.unquote().name for c in settings_obj.column_info_settings.unique_id_input_columns}
+            if keys != want:
+                raise Untranslatable(f"{name}: clusters joined to the records on {sorted(keys)}, identity is {sorted(want)}")
+            if not (len(items) == 2 and isinstance(items[0], E.Alias) and items[0].alias == "_cluster_id"
+                    and isinstance(items[1], E.Column) and isinstance(items[1].this, E.Star) and items[1].table == ta):
+                raise Untranslatable(f"{name}: select list")
+            return
+        raise Untranslatable(f"{name}: unknown stage shape {sel.sql()[:80]}")
+    raise Untranslatable(f"{start}: source chain too long")
+
+
 def scoring_of(sql: str, settings_obj, tf_cols, dialect: str) -> dict | None:
     """the scoring skeletons found in one executed statement (None if it contains no scoring stage)"""
     if "__splink__df_match_weight_parts" not in sql:
@@ -62,17 +187,29 @@ def scoring_of(sql: str, settings_obj, tf_cols, dialect: str) -> dict | None:
         raise Untranslatable("scoring pipeline without comparison-vector / match-weight-parts stage")
     if from_name(parts) != "__splink__df_comparison_vectors":
         raise Untranslatable(f"match-weight parts read from {from_name(parts)}")
+    require_plain(cv, "comparison-vector stage")
+    require_plain(parts, "match-weight-parts stage")
+    src_name = from_name(cv)
+    if src_name is None or src_name not in st:
+        raise Untranslatable(f"comparison vectors read from {src_name}")
+    binds, tables, shape = bindings_of(st[src_name], src_name)
+    for side in "lr":
+        trace_source(st, tables[side], settings_obj, dialect)
     preds = [(n, s) for n, s in st.items() if isinstance(s, E.Select) and "match_weight" in select_items_of(s)
              and from_name(s) == "__splink__df_match_weight_parts"]
     if len(preds) != 1:
         raise Untranslatable(f"{len(preds)} stages compute match_weight from the parts")
     pname, ptree = preds[0]
+    require_plain(ptree, "predict stage", allow=("where", "with") if pname == "__final__" else ("where",))
     out = translate_selects(settings_obj, tf_cols, dialect, select_items_of(cv), select_items_of(parts), ptree)
     out["predict_stage"] = pname
+    out["bindings"] = sorted(binds)
+    out["join_shape"] = shape
     # an outer filter over the predict stage (find_matches)
     out["outer_where"] = "None"
     fin = st["__final__"]
     if pname != "__final__":
+        require_plain(fin, "final select", allow=("where", "with"))
         if from_name(fin) != pname:
             # e.g. include_found_by_blocking_rules adds a projection stage; anything else is unknown
             raise Untranslatable(f"final select reads {from_name(fin)}, not the predict stage {pname}")
@@ -170,8 +307,14 @@ def tf_join_routes(settings_obj, dialect: str, cached_names, supplied_tf_cols, w
         t = sqlglot.parse_one(sql, read=dialect)
     except Exception as ex:
         raise Untranslatable(f"tf join does not parse: {sql[:80]}") from ex
+    return routes_of_select(t, tname, settings_obj)
+
+
+def routes_of_select(t, tname: str, settings_obj) -> dict:
+    from splink.internals.term_frequencies import colname_to_tf_tablename
     if not isinstance(t, E.Select) or from_name(t) != tname:
         raise Untranslatable("tf join is not a SELECT from the ad-hoc table")
+    require_plain(t, "tf join", allow=("joins",))
     items = list(t.expressions)
     if not (items and isinstance(items[0], E.Column) and isinstance(items[0].this, E.Star) and items[0].table == tname):
         raise Untranslatable("tf join does not start with <table>.*")
